@@ -9,7 +9,7 @@ LEVEL = "model_checking"
 
 def stimuli(rng, tier):
     """(cases for compression, cases for decompression)"""
-    seeds = range(6 if tier == "quick" else 40)
+    seeds = range(6 if tier == "quick" else 20)
     comp, dec = [], []
     inputs = [("empty", b""), ("one", b"x"), ("r3k", rng.randbytes(3000)),
               ("runs", b"".join(bytes([rng.randrange(3)]) * rng.choice([1, 3, 4, 5, 255, 259, 260]) for _ in range(400))),
@@ -63,7 +63,7 @@ def run(rep, tier, replay):
                                                         "xq_parse_err")]
     if tier == "thorough":
         xtab = shapes.EXPAND_THOROUGH_FIXED + [shapes.random_expand_shape(rng, i) for i in range(12)]
-    mbad = sched.mc_legs(rep, [("compress", ctab), ("expand", xtab)], pol, timeout=1200 if tier == "thorough" else 900)
+    mbad = sched.mc_legs(rep, [("compress", ctab), ("expand", xtab)], pol, timeout=600 if tier == "thorough" else 900)
     for name, c, r in mbad:
         rep.sample({"model_counterexample": name, "violated": r.violated, "temporal": r.temporal, "shape": c})
     # ---- (V)
